@@ -10,8 +10,9 @@
 use std::collections::{BTreeMap, BTreeSet, HashMap, VecDeque};
 
 use graph_engine::{
-    AStarConfig, BiconnectedConfig, CompareOp, Direction, GraphEngine, GraphError, KCoreConfig,
-    MstConfig, PropertyValue, SccConfig, TraversalFilter, TriangleConfig, VariableLengthConfig,
+    AStarConfig, AllPathsConfig, BiconnectedConfig, CommunityConfig, CompareOp, Direction, GraphEngine,
+    GraphError, KCoreConfig, MstConfig, PropertyValue, SccConfig, TraversalFilter, TriangleConfig,
+    VariableLengthConfig,
 };
 use nverif::*;
 use serde_json::{json, Value};
@@ -1197,11 +1198,12 @@ fn do_astar(c: &mut Ctx, s: u64, t: u64, costs: &BTreeMap<u64, i128>, dir: Direc
 }
 
 /// find_all_paths (all shortest paths): compared with the model (same paths, same order) + oracle.
-fn do_all_paths(c: &mut Ctx, s: u64, t: u64) {
+fn do_all_paths(c: &mut Ctx, s: u64, t: u64, caps: Option<(usize, usize)>) {
     let g = c.g;
     let tag = c.tag.clone();
-    let line = format!("allpaths {s} {t}");
-    let res = c.eng.find_all_paths(s, t, None);
+    let (mp, cap) = caps.unwrap_or((1000, 100));
+    let line = if caps.is_some() { format!("allpaths {s} {t} {mp} {cap}") } else { format!("allpaths {s} {t}") };
+    let res = c.eng.find_all_paths(s, t, caps.map(|(mp, cap)| AllPathsConfig { max_paths: mp, max_parents_per_node: cap }));
     let imp = match &res {
         Ok(ap) => format!(
             "ok {} {} {}",
@@ -1228,6 +1230,15 @@ fn do_all_paths(c: &mut Ctx, s: u64, t: u64) {
             if ap.paths.len() > 1 {
                 c.rep.hit("allpaths.multi");
             }
+            if caps.is_some() {
+                c.rep.hit("allpaths.capped");
+                if ap.paths.len() > mp {
+                    viol(c.rep, &format!("{site}/more_than_max_paths"), &format!("{} paths for max_paths {mp}", ap.paths.len()), qjson(g, &tag, &line));
+                }
+                if ap.paths.is_empty() && mp > 0 {
+                    viol(c.rep, &format!("{site}/missed_path"), "no path listed although a hop count is reported", qjson(g, &tag, &line));
+                }
+            }
             if Some(ap.hop_count) != want {
                 viol(c.rep, &format!("{site}/not_shortest"), &format!("hop_count {} but BFS distance is {want:?}", ap.hop_count), qjson(g, &tag, &line));
                 return;
@@ -1248,8 +1259,8 @@ fn do_all_paths(c: &mut Ctx, s: u64, t: u64) {
                 }
                 seen.insert((p.nodes.clone(), p.edges.clone()));
             }
-            // exact set of shortest chains (small cases only)
-            if ap.hop_count <= 6 && ap.paths.len() < 900 {
+            // exact set of shortest chains (small cases only; only when no cap can have cut the set)
+            if caps.is_none() && ap.hop_count <= 6 && ap.paths.len() < 900 {
                 let cfg = VCfg { min: ap.hop_count, max: ap.hop_count, dir: Direction::Outgoing, etypes: None, cycles: false };
                 if c.g.edges.len() <= 60 {
                     let all = ref_varpaths(c.g, s, t, &cfg, &none);
@@ -1273,27 +1284,100 @@ fn do_all_paths(c: &mut Ctx, s: u64, t: u64) {
     }
 }
 
-/// find_all_weighted_paths (all minimum-weight paths): oracle only.
-fn do_all_weighted(c: &mut Ctx, s: u64, t: u64, costs: &BTreeMap<u64, i128>) {
+/// all simple minimum-weight chains from s to t (independent enumeration; small cases only)
+fn ref_min_weight_paths(g: &GG, s: u64, t: u64, best: i128, limit: usize) -> Option<BTreeSet<(Vec<u64>, Vec<u64>)>> {
+    fn go(
+        g: &GG, t: u64, left: i128, nodes: &mut Vec<u64>, edges: &mut Vec<u64>,
+        out: &mut BTreeSet<(Vec<u64>, Vec<u64>)>, limit: usize, steps: &mut usize,
+    ) -> bool {
+        *steps += 1;
+        if *steps > 20_000 || out.len() > limit {
+            return false;
+        }
+        let u = *nodes.last().unwrap();
+        if u == t && left == 0 {
+            out.insert((nodes.clone(), edges.clone()));
+        }
+        for e in &g.edges {
+            let Some(v) = fwd(e, u) else { continue };
+            let w = weight_of(e);
+            if w > left || nodes.contains(&v) {
+                continue;
+            }
+            nodes.push(v);
+            edges.push(e.id);
+            let ok = go(g, t, left - w, nodes, edges, out, limit, steps);
+            nodes.pop();
+            edges.pop();
+            if !ok {
+                return false;
+            }
+        }
+        true
+    }
+    let mut out = BTreeSet::new();
+    let mut steps = 0usize;
+    let mut nodes = vec![s];
+    let mut edges = vec![];
+    if go(g, t, best, &mut nodes, &mut edges, &mut out, limit, &mut steps) {
+        Some(out)
+    } else {
+        None
+    }
+}
+
+/// find_all_weighted_paths (all minimum-weight paths): compared with the model (same total, same paths,
+/// same order) + oracles (every listed path is a simple walk of the minimum weight; below the caps
+/// the distinct listed paths are exactly the simple minimum-weight chains).
+fn do_all_weighted(c: &mut Ctx, s: u64, t: u64, costs: &BTreeMap<u64, i128>, caps: Option<(usize, usize)>) {
     let g = c.g;
     let tag = c.tag.clone();
-    let line = format!("find_all_weighted_paths {s} {t} w");
-    let res = c.eng.find_all_weighted_paths(s, t, "w", None);
+    let (mp, cap) = caps.unwrap_or((1000, 100));
+    let line = format!("allwpaths {s} {t} {mp} {cap}");
+    let res = c.eng.find_all_weighted_paths(s, t, "w", caps.map(|(mp, cap)| AllPathsConfig { max_paths: mp, max_parents_per_node: cap }));
     let key = format!("{}|{}", tag, line);
     c.rep.case("find_all_weighted_paths", if s != t && g.has(s) && g.has(t) { Some(&key) } else { None });
+    {
+        let imp = match &res {
+            Ok(ap) => match cost_exact(ap.total_weight) {
+                Some(x) => format!(
+                    "ok {} {} {}",
+                    x,
+                    ap.paths.len(),
+                    ap.paths.iter().map(|p| format!("{}/{}", dots(&p.nodes), dots(&p.edges))).collect::<Vec<_>>().join(";")
+                )
+                .trim_end()
+                .to_string(),
+                None => format!("ok inexact:{:016x}", ap.total_weight.to_bits()),
+            },
+            Err(GraphError::NodeNotFound(n)) => format!("nonode {n}"),
+            Err(GraphError::PathNotFound) => "none".into(),
+            Err(GraphError::NegativeWeight { edge_id, .. }) => format!("neg {edge_id}"),
+            Err(e) => format!("err {e:?}"),
+        };
+        let model = c.m.ask(&line);
+        c.rep.compare("find_all_weighted_paths", || qjson(g, &tag, &line), &imp, &model);
+    }
     let site = "graph_engine.find_all_weighted_paths";
     let none = Filt::default();
     match res {
         Ok(ap) => {
             c.rep.hit("allwpaths.ok");
+            if caps.is_some() {
+                c.rep.hit("allwpaths.capped");
+            }
             let want = costs.get(&t).copied();
             if cost_exact(ap.total_weight) != want || want.is_none() {
                 viol(c.rep, &format!("{site}/not_optimal"), &format!("total_weight {} but the minimum is {want:?}", ap.total_weight), qjson(g, &tag, &line));
                 return;
             }
-            if ap.paths.is_empty() {
+            if ap.paths.is_empty() && mp > 0 {
                 viol(c.rep, &format!("{site}/missed_path"), "no path listed although a total weight is reported", qjson(g, &tag, &line));
             }
+            if ap.paths.len() > mp {
+                viol(c.rep, &format!("{site}/more_than_max_paths"), &format!("{} paths for max_paths {mp}", ap.paths.len()), qjson(g, &tag, &line));
+            }
+            let mut seen = BTreeSet::new();
             for p in &ap.paths {
                 match check_walk(g, s, t, &p.nodes, &p.edges, &none) {
                     Err(e) => {
@@ -1301,10 +1385,33 @@ fn do_all_weighted(c: &mut Ctx, s: u64, t: u64, costs: &BTreeMap<u64, i128>) {
                         return;
                     }
                     Ok(sum) => {
-                        if Some(sum) != want {
-                            viol(c.rep, &format!("{site}/wrong_total"), &format!("listed path n={} e={} weighs {sum}, minimum {want:?}", ids(&p.nodes), ids(&p.edges)), qjson(g, &tag, &line));
+                        if Some(sum) != want || cost_exact(p.total_weight) != want {
+                            viol(c.rep, &format!("{site}/wrong_total"), &format!("listed path n={} e={} weighs {sum} (says {}), minimum {want:?}", ids(&p.nodes), ids(&p.edges), p.total_weight), qjson(g, &tag, &line));
                             return;
                         }
+                    }
+                }
+                seen.insert((p.nodes.clone(), p.edges.clone()));
+            }
+            if ap.paths.len() > 1 {
+                c.rep.hit("allwpaths.multi");
+            }
+            if seen.len() != ap.paths.len() {
+                c.rep.hit("allwpaths.duplicates");
+                if c.rep.distribution.get("allwpaths.duplicates").copied().unwrap_or(0) <= 3 {
+                    c.rep.observe(json!({"what": "find_all_weighted_paths lists the same path twice (an undirected edge left from its `to` end is relaxed through the out-list and again through the in-list, so the parent entry is pushed twice)", "query": line, "shape": c.tag}));
+                }
+            }
+            // below the caps: the distinct listed paths are exactly the simple minimum-weight chains
+            if caps.is_none() && ap.paths.len() < 900 && g.edges.len() <= 40 {
+                if let Some(all) = ref_min_weight_paths(g, s, t, want.unwrap_or(0), 400) {
+                    // the per-node parent cap (100) cannot bind with <= 40 edges
+                    if all != seen {
+                        let missing = all.difference(&seen).next().cloned();
+                        let extra = seen.difference(&all).next().cloned();
+                        viol(c.rep, &format!("{site}/wrong_path_set"), &format!("{} simple minimum-weight chains exist, {} distinct returned; missing {missing:?} extra {extra:?}", all.len(), seen.len()), qjson(g, &tag, &line));
+                    } else {
+                        c.rep.hit("allwpaths.set_checked");
                     }
                 }
             }
@@ -1456,100 +1563,199 @@ fn do_varpaths(c: &mut Ctx, s: u64, t: u64, cfg: &VCfg, f: &Filt) {
     }
 }
 
-fn do_algorithms(c: &mut Ctx) {
-    let g = c.g;
-    if g.nodes.is_empty() {
+fn show_pairs<V: std::fmt::Display>(m: &BTreeMap<u64, V>) -> String {
+    if m.is_empty() {
+        "-".into()
+    } else {
+        m.iter().map(|(k, v)| format!("{k}:{v}")).collect::<Vec<_>>().join(",")
+    }
+}
+
+/// The algorithm family on the whole graph (`etype = None`) or restricted to one edge type.
+/// Union-find components, Kruskal, core peeling and the forward triangle count are compared with the
+/// Lean model (exact answers) AND with the independent references; SCC / articulation points / bridges
+/// with the references only.
+fn do_algorithms(c: &mut Ctx, etype: Option<u8>) {
+    let full = c.g;
+    if full.nodes.is_empty() {
         return;
     }
-    let gj = || json!({"graph": g.to_json()});
+    // the graph the textbook definitions are evaluated on: same nodes, edges of the requested type
+    let sub = GG { nodes: full.nodes.clone(), edges: full.edges.iter().filter(|e| etype.map_or(true, |t| e.etype == t)).cloned().collect() };
+    let g = &sub;
+    let et_name = etype.map(|t| format!("t{t}"));
+    let et_arg = etype.map_or("-".to_string(), |t| t.to_string());
+    let sfx = if etype.is_some() { ".typed" } else { "" };
+    let tag0 = c.tag.clone();
+    let gj = || json!({"graph": full.to_json(), "edge_type": et_name, "shape": tag0});
+    let tagc = format!("{}|et={}", c.tag, et_arg);
     // connected components
-    let tagc = c.tag.clone();
-    c.rep.case("algo.connected_components", Some(&tagc));
-    match c.eng.connected_components(None) {
-        Ok(r) => {
-            let got = canon_partition(r.members.into_values());
-            let want = ref_components(g);
-            c.rep.hit(&format!("components.{}", want.len().min(5)));
-            if got != want {
-                viol(c.rep, "graph_engine.connected_components/wrong_partition", &format!("got {got:?} want {want:?}"), gj());
-            }
-        }
-        Err(e) => viol(c.rep, "graph_engine.connected_components/unexpected_error", &format!("{e:?}"), gj()),
-    }
-    // strongly connected components
-    c.rep.case("algo.scc", Some(&tagc));
-    match c.eng.strongly_connected_components(&SccConfig::new()) {
-        Ok(r) => {
-            let got = canon_partition(r.members);
-            let want = ref_scc(g);
-            if got != want {
-                viol(c.rep, "graph_engine.strongly_connected_components/wrong_partition", &format!("got {got:?} want {want:?}"), gj());
-            }
-        }
-        Err(e) => viol(c.rep, "graph_engine.strongly_connected_components/unexpected_error", &format!("{e:?}"), gj()),
-    }
-    // minimum spanning forest weight
-    c.rep.case("algo.mst", Some(&tagc));
-    match c.eng.minimum_spanning_tree(&MstConfig::new("w")) {
-        Ok(r) => {
-            let (want_w, want_cnt) = ref_mst_weight(g);
-            let comps = ref_components(g).len();
-            let ix = index_of(g);
-            let mut uf = Uf::new(g.nodes.len());
-            let mut sum = 0i128;
-            let mut forest_ok = true;
-            for me in &r.edges {
-                match g.edge(me.edge_id) {
-                    Some(e) if e.src == me.from && e.dst == me.to && cost_exact(me.weight) == Some(weight_of(e)) => {
-                        sum += weight_of(e);
-                        if !uf.union(ix[&e.src], ix[&e.dst]) {
-                            forest_ok = false;
-                        }
-                    }
-                    _ => forest_ok = false,
+    c.rep.case(&format!("algo.connected_components{sfx}"), Some(&tagc));
+    {
+        let cfg = et_name.as_ref().map(|n| CommunityConfig::new().edge_type(n.clone()));
+        let line = format!("components {et_arg}");
+        match c.eng.connected_components(cfg) {
+            Ok(r) => {
+                let comm: BTreeMap<u64, u64> = r.communities.iter().map(|(k, v)| (*k, *v)).collect();
+                let imp = format!("ok {}", show_pairs(&comm));
+                let model = c.m.ask(&line);
+                c.rep.compare(&format!("algo.connected_components{sfx}"), || json!({"graph": full.to_json(), "query": line}), &imp, &model);
+                let got = canon_partition(r.members.clone().into_values());
+                let want = ref_components(g);
+                c.rep.hit(&format!("components.{}", want.len().min(5)));
+                // members / communities / community_count must describe the same partition
+                let mut by_root: BTreeMap<u64, Vec<u64>> = BTreeMap::new();
+                for (n, root) in &comm {
+                    by_root.entry(*root).or_default().push(*n);
+                }
+                let from_comm = canon_partition(by_root.clone().into_values());
+                if got != want {
+                    viol(c.rep, "graph_engine.connected_components/wrong_partition", &format!("got {got:?} want {want:?}"), gj());
+                } else if from_comm != want || r.community_count != want.len() {
+                    viol(c.rep, "graph_engine.connected_components/inconsistent_result", &format!("communities {from_comm:?} count {} members {got:?}", r.community_count), gj());
+                } else if by_root.iter().any(|(root, ms)| !ms.contains(root)) {
+                    viol(c.rep, "graph_engine.connected_components/label_not_a_member", &format!("{comm:?}"), gj());
                 }
             }
-            if !forest_ok {
-                viol(c.rep, "graph_engine.minimum_spanning_tree/not_a_forest", "edges listed do not form a forest of real edges", gj());
-            } else if r.edges.len() != want_cnt || r.tree_count != comps {
-                viol(c.rep, "graph_engine.minimum_spanning_tree/not_spanning", &format!("edges {} (want {want_cnt}), tree_count {} (components {comps})", r.edges.len(), r.tree_count), gj());
-            } else if sum != want_w || cost_exact(r.total_weight) != Some(want_w) {
-                viol(c.rep, "graph_engine.minimum_spanning_tree/not_minimum", &format!("total {} / edge sum {sum}, minimum is {want_w}", r.total_weight), gj());
+            Err(e) => viol(c.rep, "graph_engine.connected_components/unexpected_error", &format!("{e:?}"), gj()),
+        }
+    }
+    // strongly connected components
+    c.rep.case(&format!("algo.scc{sfx}"), Some(&tagc));
+    {
+        let cfg = match &et_name {
+            Some(n) => SccConfig::new().edge_type(n.clone()),
+            None => SccConfig::new(),
+        };
+        match c.eng.strongly_connected_components(&cfg) {
+            Ok(r) => {
+                let got = canon_partition(r.members);
+                let want = ref_scc(g);
+                if got != want {
+                    viol(c.rep, "graph_engine.strongly_connected_components/wrong_partition", &format!("got {got:?} want {want:?}"), gj());
+                }
+            }
+            Err(e) => viol(c.rep, "graph_engine.strongly_connected_components/unexpected_error", &format!("{e:?}"), gj()),
+        }
+    }
+    // minimum spanning forest (no edge-type option): both settings of compute_forest
+    if etype.is_none() {
+        for forest in [true, false] {
+            c.rep.case("algo.mst", Some(&format!("{tagc}|forest={forest}")));
+            match c.eng.minimum_spanning_tree(&MstConfig::new("w").compute_forest(forest)) {
+                Ok(r) => {
+                    let weights: Vec<String> = r.edges.iter().map(|e| cost_exact(e.weight).map_or(format!("inexact:{}", e.weight), |x| x.to_string())).collect();
+                    let imp = format!(
+                        "ok {} {} {}",
+                        cost_exact(r.total_weight).map_or(format!("inexact:{}", r.total_weight), |x| x.to_string()),
+                        r.tree_count,
+                        if weights.is_empty() { "-".to_string() } else { weights.join(",") }
+                    );
+                    let line = format!("mst {}", u8::from(forest));
+                    let model = c.m.ask(&line);
+                    c.rep.compare("algo.mst", || json!({"graph": full.to_json(), "query": line}), &imp, &model);
+                    let (want_w, want_cnt) = ref_mst_weight(g);
+                    let comps = ref_components(g).len();
+                    let ix = index_of(g);
+                    let mut uf = Uf::new(g.nodes.len());
+                    let mut sum = 0i128;
+                    let mut forest_ok = true;
+                    for me in &r.edges {
+                        match g.edge(me.edge_id) {
+                            Some(e) if e.src == me.from && e.dst == me.to && cost_exact(me.weight) == Some(weight_of(e)) => {
+                                sum += weight_of(e);
+                                if !uf.union(ix[&e.src], ix[&e.dst]) {
+                                    forest_ok = false;
+                                }
+                            }
+                            _ => forest_ok = false,
+                        }
+                    }
+                    c.rep.hit(if comps > 1 { "mst.forest" } else { "mst.tree" });
+                    if g.edges.iter().any(|e| weight_of(e) < 0) {
+                        c.rep.hit("mst.negative_weight");
+                    }
+                    if !forest_ok {
+                        viol(c.rep, "graph_engine.minimum_spanning_tree/not_a_forest", "edges listed do not form a forest of real edges", gj());
+                    } else if r.edges.len() != want_cnt || r.tree_count != comps {
+                        viol(c.rep, "graph_engine.minimum_spanning_tree/not_spanning", &format!("edges {} (want {want_cnt}), tree_count {} (components {comps})", r.edges.len(), r.tree_count), gj());
+                    } else if sum != want_w || cost_exact(r.total_weight) != Some(want_w) {
+                        viol(c.rep, "graph_engine.minimum_spanning_tree/not_minimum", &format!("total {} / edge sum {sum}, minimum is {want_w}", r.total_weight), gj());
+                    }
+                }
+                Err(e) => viol(c.rep, "graph_engine.minimum_spanning_tree/unexpected_error", &format!("{e:?}"), gj()),
             }
         }
-        Err(e) => viol(c.rep, "graph_engine.minimum_spanning_tree/unexpected_error", &format!("{e:?}"), gj()),
     }
     // core numbers
-    c.rep.case("algo.kcore", Some(&tagc));
-    match c.eng.kcore_decomposition(&KCoreConfig::new().undirected()) {
-        Ok(r) => {
-            let got: BTreeMap<u64, usize> = r.core_numbers.into_iter().collect();
-            let want = ref_core_numbers(g);
-            c.rep.hit(&format!("kcore.degeneracy.{}", want.values().copied().max().unwrap_or(0).min(5)));
-            if got != want {
-                viol(c.rep, "graph_engine.kcore_decomposition/wrong_core_number", &format!("got {got:?} want {want:?}"), gj());
+    c.rep.case(&format!("algo.kcore{sfx}"), Some(&tagc));
+    {
+        let cfg = match &et_name {
+            Some(n) => KCoreConfig::new().undirected().edge_type(n.clone()),
+            None => KCoreConfig::new().undirected(),
+        };
+        match c.eng.kcore_decomposition(&cfg) {
+            Ok(r) => {
+                let got: BTreeMap<u64, usize> = r.core_numbers.iter().map(|(k, v)| (*k, *v)).collect();
+                let line = format!("kcore {et_arg}");
+                let model = c.m.ask(&line);
+                c.rep.compare(&format!("algo.kcore{sfx}"), || json!({"graph": full.to_json(), "query": line}), &format!("ok {}", show_pairs(&got)), &model);
+                let want = ref_core_numbers(g);
+                let degeneracy = want.values().copied().max().unwrap_or(0);
+                c.rep.hit(&format!("kcore.degeneracy.{}", degeneracy.min(5)));
+                let mut cores: BTreeMap<u64, usize> = BTreeMap::new();
+                for (k, ns) in &r.cores {
+                    for n in ns {
+                        cores.insert(*n, *k);
+                    }
+                }
+                if got != want {
+                    viol(c.rep, "graph_engine.kcore_decomposition/wrong_core_number", &format!("got {got:?} want {want:?}"), gj());
+                } else if r.degeneracy != degeneracy || cores != want {
+                    viol(c.rep, "graph_engine.kcore_decomposition/inconsistent_result", &format!("degeneracy {} cores {cores:?} core_numbers {got:?}", r.degeneracy), gj());
+                }
             }
+            Err(e) => viol(c.rep, "graph_engine.kcore_decomposition/unexpected_error", &format!("{e:?}"), gj()),
         }
-        Err(e) => viol(c.rep, "graph_engine.kcore_decomposition/unexpected_error", &format!("{e:?}"), gj()),
     }
-    // triangles
-    c.rep.case("algo.triangles", Some(&tagc));
-    match c.eng.count_triangles(&TriangleConfig::new().undirected()) {
-        Ok(r) => {
-            let (want, want_per) = ref_triangles(g);
-            let got_per: BTreeMap<u64, usize> = r.node_triangles.into_iter().collect();
-            c.rep.hit(if want == 0 { "triangles.zero" } else { "triangles.some" });
-            if r.triangle_count != want {
-                viol(c.rep, "graph_engine.count_triangles/wrong_count", &format!("triangle_count {} but the graph has {want} triangles", r.triangle_count), gj());
-            } else if got_per != want_per {
-                viol(c.rep, "graph_engine.count_triangles/wrong_node_count", &format!("got {got_per:?} want {want_per:?}"), gj());
-            }
+    // triangles: undirected view against the textbook count; the default (directed, out-neighbour) mode
+    // has no textbook definition and is compared with the model only
+    for undirected in [true, false] {
+        let stream = format!("algo.triangles{}{sfx}", if undirected { "" } else { ".directed_mode" });
+        c.rep.case(&stream, Some(&tagc));
+        let mut cfg = TriangleConfig::new();
+        if undirected {
+            cfg = cfg.undirected();
         }
-        Err(e) => viol(c.rep, "graph_engine.count_triangles/unexpected_error", &format!("{e:?}"), gj()),
+        if let Some(n) = &et_name {
+            cfg = cfg.edge_type(n.clone());
+        }
+        match c.eng.count_triangles(&cfg) {
+            Ok(r) => {
+                let got_per: BTreeMap<u64, usize> = r.node_triangles.iter().map(|(k, v)| (*k, *v)).collect();
+                let line = format!("triangles {et_arg} {}", u8::from(undirected));
+                let model = c.m.ask(&line);
+                c.rep.compare(&stream, || json!({"graph": full.to_json(), "query": line}), &format!("ok {} {}", r.triangle_count, show_pairs(&got_per)), &model);
+                if undirected {
+                    let (want, want_per) = ref_triangles(g);
+                    c.rep.hit(if want == 0 { "triangles.zero" } else { "triangles.some" });
+                    if r.triangle_count != want {
+                        viol(c.rep, "graph_engine.count_triangles/wrong_count", &format!("triangle_count {} but the graph has {want} triangles", r.triangle_count), gj());
+                    } else if got_per != want_per {
+                        viol(c.rep, "graph_engine.count_triangles/wrong_node_count", &format!("got {got_per:?} want {want_per:?}"), gj());
+                    }
+                }
+            }
+            Err(e) => viol(c.rep, "graph_engine.count_triangles/unexpected_error", &format!("{e:?}"), gj()),
+        }
     }
     // articulation points
-    c.rep.case("algo.articulation", Some(&tagc));
-    match c.eng.articulation_points(&BiconnectedConfig::new()) {
+    let bcfg = match &et_name {
+        Some(n) => BiconnectedConfig::new().edge_type(n.clone()),
+        None => BiconnectedConfig::new(),
+    };
+    c.rep.case(&format!("algo.articulation{sfx}"), Some(&tagc));
+    match c.eng.articulation_points(&bcfg) {
         Ok(mut got) => {
             got.sort_unstable();
             let want = ref_articulation(g);
@@ -1560,8 +1766,8 @@ fn do_algorithms(c: &mut Ctx) {
         Err(e) => viol(c.rep, "graph_engine.articulation_points/unexpected_error", &format!("{e:?}"), gj()),
     }
     // bridges
-    c.rep.case("algo.bridges", Some(&tagc));
-    match c.eng.bridges(&BiconnectedConfig::new()) {
+    c.rep.case(&format!("algo.bridges{sfx}"), Some(&tagc));
+    match c.eng.bridges(&bcfg) {
         Ok(bs) => {
             let mut got: Vec<(u64, u64)> = bs.into_iter().map(|(a, b)| (a.min(b), a.max(b))).collect();
             got.sort_unstable();
@@ -1573,7 +1779,9 @@ fn do_algorithms(c: &mut Ctx) {
                 // outside the property's list (components / spanning tree / core numbers / triangles):
                 // recorded, not failed
                 c.rep.hit("bridges.parallel_pair_reported");
-                c.rep.observe(json!({"what": "bridges() reports a node pair joined by parallel edges as a bridge (simple-graph view); in the multigraph removing one of those edges disconnects nothing", "bridges": format!("{got:?}"), "shape": tagc}));
+                if c.rep.distribution.get("bridges.parallel_pair_reported").copied().unwrap_or(0) <= 5 {
+                    c.rep.observe(json!({"what": "bridges() reports a node pair joined by parallel edges as a bridge (simple-graph view); in the multigraph removing one of those edges disconnects nothing", "bridges": format!("{got:?}"), "shape": tagc}));
+                }
             }
         }
         Err(e) => viol(c.rep, "graph_engine.bridges/unexpected_error", &format!("{e:?}"), gj()),
@@ -1634,6 +1842,8 @@ fn run_graph(plan: &Planned, m: &mut Model, rep: &mut Report, r: &mut Rng, budge
             }
         }
     }
+    let t_w = std::time::Instant::now();
+    let mut d_aw = std::time::Duration::ZERO;
     // ---- weighted
     let has_zero = g.edges.iter().any(|e| weight_of(e) == 0);
     for &s in &all {
@@ -1656,19 +1866,33 @@ fn run_graph(plan: &Planned, m: &mut Model, rep: &mut Report, r: &mut Rng, budge
                     c.rep.hit("allwpaths.zero_weight_graph");
                 }
                 if g.nodes.len() <= 12 || r.chance(1, 3) {
-                    do_all_weighted(&mut c, s, t, &costs);
+                    let t_x = std::time::Instant::now();
+                    do_all_weighted(&mut c, s, t, &costs, None);
+                    d_aw += t_x.elapsed();
+                    if r.chance(1, 4) {
+                        // both caps small: max_paths cuts the enumeration, max_parents_per_node the parent lists
+                        let caps = (1 + r.below(3) as usize, r.below(3) as usize);
+                        do_all_weighted(&mut c, s, t, &costs, Some(caps));
+                    }
                 }
             }
         }
     }
+    let d_w = t_w.elapsed();
+    let t_ap = std::time::Instant::now();
     // ---- all shortest paths
     for &s in &all {
         for &t in &all {
             if g.nodes.len() <= 14 || r.chance(1, 6) {
-                do_all_paths(&mut c, s, t);
+                do_all_paths(&mut c, s, t, None);
+                if r.chance(1, 4) {
+                    let caps = (1 + r.below(3) as usize, r.below(3) as usize);
+                    do_all_paths(&mut c, s, t, Some(caps));
+                }
             }
         }
     }
+    let d_ap = t_ap.elapsed();
     // ---- traversals
     let dirs = [Direction::Outgoing, Direction::Incoming, Direction::Both];
     for &s in &all {
@@ -1701,8 +1925,14 @@ fn run_graph(plan: &Planned, m: &mut Model, rep: &mut Report, r: &mut Rng, budge
         let f = if r.chance(1, 3) { gen_filter(r) } else { Filt::default() };
         do_varpaths(&mut c, s, t, &cfg, &f);
     }
-    // ---- algorithm family
-    do_algorithms(&mut c);
+    // ---- algorithm family: whole graph, then restricted to one edge type
+    let t_al = std::time::Instant::now();
+    do_algorithms(&mut c, None);
+    let t = r.below(3) as u8;
+    do_algorithms(&mut c, Some(t));
+    if std::env::var("C18_TIMING").is_ok() {
+        eprintln!("TIMING n={} e={} aw={:?} weighted={:?} allpaths={:?} algos={:?}", g.nodes.len(), g.edges.len(), d_aw, d_w, d_ap, t_al.elapsed());
+    }
 }
 
 struct Budget {
